@@ -314,3 +314,121 @@ Proof.
     cbn [app inf_str] in Hpost. inversion Hpost; subst. unfold digit in Hd. lia.
   - apply no_nan_inf; [apply trunc_numeral_chars|exact H78|exact H102].
 Qed.
+
+(** ** Explicit precision / width of a throughput *)
+
+Lemma trunc_numeral_zero : forall b sig, b <> 0 -> trunc_numeral 0 b sig = [ch_0].
+Proof.
+  intros b sig Hb. unfold trunc_numeral. cbv zeta. rewrite !(N.div_0_l b Hb).
+  set (k := sig - len (digits_of 0)). replace (0 * 10 ^ k / b) with 0 by (symmetry; apply N.div_0_l; exact Hb).
+  unfold render_fix. rewrite N.div_0_l, N.mod_0_l by apply pow10_nz. rewrite frac_part_eq.
+  assert (Hz : pad_digits (N.to_nat k) 0 = repeat ch_0 (N.to_nat k)).
+  { assert (Hd : Forall digit (repeat ch_0 (N.to_nat k))).
+    { apply Forall_forall. intros x Hx. apply repeat_spec in Hx. subst. unfold digit, ch_0. lia. }
+    rewrite (pad_unique _ Hd). now rewrite repeat_length, val_repeat0. }
+  rewrite Hz, strip0_repeat. reflexivity.
+Qed.
+
+Lemma body_of_fill : forall width x suf, notin ch_space x -> notin ch_space suf ->
+  body_of (fill_to width (x ++ [ch_space] ++ suf)) = x ++ [ch_space] ++ suf.
+Proof.
+  intros width x suf Hx Hs. rewrite fill_to_split. unfold body_of.
+  rewrite split_at_app by exact Hx.
+  destruct (N.to_nat match width with None => 0 | Some w => w - (len x + 1 + len suf) end) as [|n].
+  - cbn [repeat_byte repeat]. rewrite app_nil_r, split_at_notin by exact Hs. reflexivity.
+  - cbn [repeat_byte repeat]. rewrite split_at_app by exact Hs. reflexivity.
+Qed.
+
+Lemma throughput_with_cases : forall kind count picos binary prec width f,
+  thr_format kind binary = Ok f -> thr_sig prec + 1 < 2 ^ 64 ->
+  exists x, notin ch_space x /\
+    display_throughput_with kind count picos binary prec width
+      = Ok (fill_to width (x ++ [ch_space] ++ spec_suffix f (if (count =? 0) || (picos =? 0) then 0
+                                 else fst (spec_scale (sfmt_binary f) (count * 1000000000000) picos)))) /\
+    (count = 0 -> x = [ch_0]) /\
+    (count <> 0 -> picos = 0 -> x = [105; 110; 102]) /\
+    (count <> 0 -> picos <> 0 ->
+       x = trunc_numeral (count * 1000000000000)
+             (picos * snd (spec_scale (sfmt_binary f) (count * 1000000000000) picos)) (thr_sig prec)).
+Proof.
+  intros kind count picos binary prec width f Hf Hsig. unfold display_throughput_with. rewrite Hf. cbn [bind].
+  unfold thr_value.
+  destruct (N.eq_dec count 0) as [->|Hc].
+  { change (0 =? 0) with true. cbn [orb]. cbv iota. exists [ch_0]. split; [repeat constructor; unfold ch_0, ch_space; lia|].
+    split; [|repeat split; intros; try reflexivity; lia].
+    rewrite (fmt_scaled_spec f (thr_sig prec) 0 1) by (try exact Hsig; lia). cbn [bind].
+    unfold spec_scaled_string.
+    assert (Hsc : spec_scale (sfmt_binary f) 0 1 = (0, 1)) by (destruct f as [[|]|[|]| | |]; reflexivity).
+    rewrite Hsc, trunc_numeral_zero by lia. reflexivity. }
+  destruct (count =? 0) eqn:Ec; [lia|]. cbn [orb].
+  destruct (N.eq_dec picos 0) as [->|Hp].
+  { change (0 =? 0) with true. cbv iota. exists [105; 110; 102].
+    split; [repeat constructor; unfold ch_space; lia|].
+    split; [|repeat split; intros; try reflexivity; lia].
+    destruct f as [[|]|[|]| | |]; reflexivity. }
+  destruct (picos =? 0) eqn:Ep; [lia|].
+  rewrite fmt_scaled_spec by assumption. cbn [bind]. unfold spec_scaled_string.
+  destruct (spec_scale (sfmt_binary f) (count * 1000000000000) picos) as [i st]. cbn [fst snd].
+  eexists. split; [apply trunc_numeral_no_space|]. split; [reflexivity|].
+  repeat split; intros; try reflexivity; lia.
+Qed.
+
+(** Never cut, for every precision and width: the output is the rule's
+    string for [thr_sig prec] significant figures, padded on the right. *)
+Lemma throughput_with_spec : forall kind count picos binary prec width f,
+  thr_format kind binary = Ok f -> thr_sig prec + 1 < 2 ^ 64 -> count <> 0 -> picos <> 0 ->
+  display_throughput_with kind count picos binary prec width
+  = Ok (fill_to width (spec_scaled_string f (thr_sig prec) (count * 1000000000000) picos)).
+Proof.
+  intros kind count picos binary prec width f Hf Hsig Hc Hp.
+  unfold display_throughput_with. rewrite Hf. cbn [bind]. unfold thr_value.
+  destruct (count =? 0) eqn:Ec; [lia|]. destruct (picos =? 0) eqn:Ep; [lia|].
+  rewrite fmt_scaled_spec by assumption. reflexivity.
+Qed.
+
+Lemma throughput_with_default : forall kind count picos binary,
+  display_throughput_with kind count picos binary None None = display_throughput kind count picos binary.
+Proof.
+  intros. unfold display_throughput_with, display_throughput, thr_sig.
+  destruct (thr_format kind binary); [|reflexivity]. cbn [bind].
+  destruct (fmt_scaled s 4 (thr_value count picos)); reflexivity.
+Qed.
+
+Lemma throughput_with_model_sb : forall kind count picos binary prec width,
+  kind <= 3 -> thr_sig prec + 1 < 2 ^ 64 ->
+  throughput_with_sb kind count picos binary prec width
+    (display_throughput_with kind count picos binary prec width) = true.
+Proof.
+  intros kind count picos binary prec width Hk Hsig.
+  destruct (thr_format_ok kind binary Hk) as [f Hf].
+  destruct (throughput_with_cases kind count picos binary prec width f Hf Hsig) as [x [Hx [Heq [H0 [Hinf Hgen]]]]].
+  rewrite Heq. unfold throughput_with_sb.
+  set (i := if (count =? 0) || (picos =? 0) then 0 else fst (spec_scale (sfmt_binary f) (count * 1000000000000) picos)) in *.
+  assert (Hi : i <= 5).
+  { unfold i. destruct ((count =? 0) || (picos =? 0)) eqn:E; [lia|].
+    apply orb_false_iff in E. destruct E as [_ Ep].
+    apply (spec_scale_props (sfmt_binary f) (count * 1000000000000) picos). lia. }
+  rewrite body_of_fill by (try exact Hx; now apply spec_suffix_no_space).
+  apply andb_true_iff. split; [now apply str_eqb_eq|].
+  unfold throughput_sig_sb. rewrite Hf.
+  destruct (N.eq_dec count 0) as [->|Hc].
+  { change (0 =? 0) with true. cbv iota. rewrite (H0 eq_refl). unfold i. change (0 =? 0) with true. cbn [orb].
+    now apply str_eqb_eq. }
+  destruct (count =? 0) eqn:Ec; [lia|].
+  destruct (N.eq_dec picos 0) as [->|Hp].
+  { change (0 =? 0) with true. cbv iota. rewrite (Hinf Hc eq_refl). unfold i. try rewrite Ec. change (0 =? 0) with true. cbn [orb].
+    now apply str_eqb_eq. }
+  destruct (picos =? 0) eqn:Ep; [lia|].
+  rewrite (Hgen Hc Hp). unfold i. try rewrite Ec. try rewrite Ep. cbn [orb].
+  unfold scaled_sb_approx.
+  assert (H : scaled_sb f (thr_sig prec) (count * 1000000000000) picos
+            (spec_scaled_string f (thr_sig prec) (count * 1000000000000) picos) = true) by now apply scaled_sb_spec.
+  unfold spec_scaled_string in H.
+  destruct (spec_scale (sfmt_binary f) (count * 1000000000000) picos) as [i' st]. cbn [fst snd].
+  now rewrite H.
+Qed.
+
+Example throughput_with_guard_satisfiable :
+  display_throughput_with 3 1234 1000000000 false (Some 4) (Some 16)
+  = Ok [49; 46; 50; 51; 52; 32; 77; 105; 116; 101; 109; 47; 115; 32; 32; 32].   (* "1.234 Mitem/s   " *)
+Proof. reflexivity. Qed.
